@@ -381,4 +381,40 @@ func c11(r *core.Report) {
 		})
 		r.Check(good, "base:join/query", p.Pos(jd.Pos()), "the joined location has the reference's query", "join copies the referring document's location and replaces only its path: a relative reference inside http://h/spec.yml?token=T is read at http://h/other.yml?token=T, with the base's query instead of its own")
 	})
+	c11Fallback(r)
+}
+
+// c11Fallback: resolveComponent re-reads a document as raw data when the typed walk fails; the
+// document is the one the reference leads to.
+func c11Fallback(r *core.Report) {
+	p := r.Prog
+	info := p.Pkg("openapi3").TypesInfo
+	r.RunRule("C11.fallback", "what resolveComponent reads itself is the referred document: every argument of loader.readURL (or of any other reader) in Loader.resolveComponent is the location that resolveRefAndDocument returned for the reference (the named result componentPath), not the location of the document the reference is written in (the parameter path) — the two differ for every external reference, and reading the latter resolves `other.yml#/x-defs/X` with an object of the referring document", 1, func() {
+		fd := p.DeclOf("openapi3", "Loader.resolveComponent")
+		pathObj := core.ParamObj(info, fd, "path")
+		n := 0
+		ast.Inspect(fd.Body, func(nd ast.Node) bool {
+			c, ok := nd.(*ast.CallExpr)
+			if !ok {
+				return true
+			}
+			callee := core.CalleeOf(info, c)
+			if callee == nil {
+				return true
+			}
+			isReader := callee.Name() == "readURL" || (callee.Pkg() != nil && (callee.Pkg().Path() == "os" && callee.Name() == "ReadFile" || callee.Pkg().Path() == "net/http" && callee.Name() == "Get"))
+			if !isReader || len(c.Args) == 0 {
+				return true
+			}
+			n++
+			key := fmt.Sprintf("fallback:resolveComponent/read#%d", n)
+			id := core.RootIdent(c.Args[len(c.Args)-1])
+			bad := id != nil && pathObj != nil && info.ObjectOf(id) == pathObj
+			r.Check(!bad, key, p.Pos(c.Pos()), "reads the location the reference resolved to", "resolveComponent reads `"+core.ExprStr(c.Args[len(c.Args)-1])+"`, the location of the document the reference is written in: for an external reference whose fragment is not found by the typed walk, the raw fallback then drills into the referring document and resolves the reference with one of its objects (and a relative reference inside is read from the wrong directory)")
+			return true
+		})
+		if n == 0 {
+			core.Fail("resolveComponent: no read found (the raw re-read fallback expected)")
+		}
+	})
 }
